@@ -337,4 +337,56 @@ pub(crate) mod verif_proofs {
         std::mem::forget(s);
         std::mem::forget(sq);
     }
+
+    /// [C15.stop] the stop condition "all normal packets were processed": EventQueue::no_normal_packets() may only answer
+    /// true when NO normal packet is still queued on that side - neither a NormalSent of the base trace, nor a
+    /// tunnel-sent normal packet (blocked, or bypassing after it replaced a padding), nor a tunnel-received one.
+    /// BOUNDED: one queued event of any kind, side and flags (two make CBMC run out of memory in BinaryHeap's sift-up).
+    #[kani::proof]
+    #[kani::unwind(6)]
+    pub(crate) fn k_sim_no_normal() {
+        fn any_event() -> SimEvent {
+            let m = MachineId::from_raw(0);
+            let event = match kani::any::<u8>() % 8 {
+                0 => TriggerEvent::NormalSent,
+                1 => TriggerEvent::TunnelSent,
+                2 => TriggerEvent::TunnelRecv,
+                3 => TriggerEvent::NormalRecv,
+                4 => TriggerEvent::PaddingSent { machine: m },
+                5 => TriggerEvent::PaddingRecv,
+                6 => TriggerEvent::BlockingBegin { machine: m },
+                _ => TriggerEvent::TimerEnd { machine: m },
+            };
+            SimEvent {
+                event,
+                time: t0() + Duration::from_secs(kani::any::<u8>() as u64),
+                integration_delay: Duration::from_secs(0),
+                client: kani::any(),
+                contains_padding: kani::any(),
+                bypass: kani::any(),
+                replace: kani::any(),
+                debug_note: None,
+            }
+        }
+        // written from the statement: a normal (non-padding) packet that is still on its way
+        fn normal_in_flight(e: &SimEvent) -> bool {
+            matches!(e.event, TriggerEvent::NormalSent)
+                || (matches!(e.event, TriggerEvent::TunnelSent | TriggerEvent::TunnelRecv) && !e.contains_padding)
+        }
+        let e1 = any_event();
+        let pending = normal_in_flight(&e1);
+        // one side's queue, built from its parts (EventQueue::new() reserves 4 x 1024..4096 events, which CBMC chokes on)
+        let mut sq = crate::queue_event::EventQueue {
+            base: std::collections::BinaryHeap::new(),
+            blocking: std::collections::BinaryHeap::new(),
+            bypassable: std::collections::BinaryHeap::new(),
+            internal: std::collections::BinaryHeap::new(),
+        };
+        sq.push(e1);
+        let done = sq.no_normal_packets();
+        assert!(!(done && pending), "[C15.stop] the run may not be declared finished while a normal packet is still queued");
+        kani::cover!(done, "can finish");
+        kani::cover!(pending && !done, "keeps going");
+        std::mem::forget(sq);
+    }
 }
